@@ -141,18 +141,25 @@ def _check(name_i, thr_i, n, specs):
     # ---- archive round trip
     buf = io.StringIO()
     ResultsArchiveWriter().export(buf, results)
-    buf.seek(0)
-    back = ResultsArchiveReader(s).read(buf)
-    if back != results:
-        return False, 'archive round trip differs'
-    for a, b in zip(back.items, results.items):
-        for ma, mb in zip(a.closest_genomes, b.closest_genomes):
-            if np.float32(ma.distance).tobytes() != np.float32(mb.distance).tobytes() or float(ma.distance) != float(mb.distance):
-                return False, f'archive distance {ma.distance!r} != {mb.distance!r}'
-        if a.classifier_result.warnings != b.classifier_result.warnings or a.classifier_result.error != b.classifier_result.error:
-            return False, 'archive warnings/error'
-    if back.params != results.params or back.extra != results.extra or back.timestamp != results.timestamp or back.signaturesmeta != results.signaturesmeta:
-        return False, 'archive params/extra/timestamp/meta'
+    # several readers may be alive at once (one per database session in a long-running process): every one of them, in
+    # whatever order they were constructed and are used, must reconstruct the same results
+    readers = [ResultsArchiveReader(s), ResultsArchiveReader(s)]
+    for which in (0, 1, 0):
+        buf.seek(0)
+        try:
+            back = readers[which].read(buf)
+        except Exception as e:   # noqa
+            return False, f'archive read by reader #{which} of 2 raised {type(e).__name__}: {str(e)[:200]}'
+        if back != results:
+            return False, f'reader #{which}: archive round trip differs'
+        for a, b in zip(back.items, results.items):
+            for ma, mb in zip(a.closest_genomes, b.closest_genomes):
+                if np.float32(ma.distance).tobytes() != np.float32(mb.distance).tobytes() or float(ma.distance) != float(mb.distance):
+                    return False, f'reader #{which}: archive distance {ma.distance!r} != {mb.distance!r}'
+            if a.classifier_result.warnings != b.classifier_result.warnings or a.classifier_result.error != b.classifier_result.error:
+                return False, f'reader #{which}: archive warnings/error'
+        if back.params != results.params or back.extra != results.extra or back.timestamp != results.timestamp or back.signaturesmeta != results.signaturesmeta:
+            return False, f'reader #{which}: archive params/extra/timestamp/meta'
     return True, None
 
 
@@ -167,7 +174,7 @@ def _c11_one(name_i: int, l0: int, p0: int, x0: int, d0: int, f0: bool, e0: bool
     """
     One result item: every combination of presence / absence of its optional parts and of the pooled text and float values.
     pre: 0 <= name_i < len(TEXTS) and 0 <= l0 < len(TEXTS) and 0 <= p0 <= 4 and 0 <= x0 <= 2 and 0 <= d0 < len(DISTS)
-    pre: ('name_i' not in P or name_i == P['name_i']) and ('maxdist' not in P or d0 < P['maxdist'])
+    pre: ('name_i' not in P or name_i == P['name_i']) and ('maxdist' not in P or d0 < P['maxdist']) and ('file' not in P or f0 == bool(P['file']))
     post: _
     """
     return _run1(name_i, l0, p0, x0, d0, f0, e0)[0]
